@@ -6,6 +6,7 @@ import (
 	"fmt"
 	"go/constant"
 	"go/token"
+	"go/types"
 	"regexp"
 	"strings"
 
@@ -163,6 +164,18 @@ func ruleWSig(c *Ctx) {
 	want := seqOf(le(4, "p0.Version"), h1, h2, rev(in+".previousTxID"), le(4, in+".PreviousTxOutIndex"),
 		vi("len(*"+in+".PreviousTxScript)"), raw("*"+in+".PreviousTxScript"), le(8, in+".PreviousTxSatoshis"), le(4, in+".SequenceNumber"),
 		h3, le(4, "p0.LockTime"), le(4, "p2"))
+	// the specification's atoms as terms over the hash type, so that they and the code's own tests of it
+	// (masks, lookups in a constant table) are evaluated together on its values
+	if len(fn.Params) > 2 {
+		p2 := &T{K: "param", Name: "p2", Typ: fn.Params[2].Type()}
+		k := func(v int64) *T { return &T{K: "const", C: constant.MakeInt64(v), Typ: fn.Params[2].Type()} }
+		mk := func(mask, cmp int64) *T {
+			return &T{K: "bin", Op: token.EQL, Typ: types.Typ[types.Bool], Args: []*T{{K: "bin", Op: token.AND, Typ: fn.Params[2].Type(), Args: []*T{p2, k(mask)}}, k(cmp)}}
+		}
+		registerAtom(A, mk(128, 0))
+		registerAtom(S, mk(31, 3))
+		registerAtom(N, mk(31, 2))
+	}
 	got := evalWith(c, fn, nil, nil)
 	extra := func(val map[string]bool) bool {
 		// the argument passed to OutputsHash is a valid index, not the "all outputs" marker -1
@@ -182,8 +195,9 @@ func ruleWSig(c *Ctx) {
 	layAtoms(got, atoms)
 	for a := range atoms {
 		if strings.Contains(a, "p2") {
-			known := a == A || a == S || a == N || a == "((p2 & 31) != 3)" || a == "((p2 & 31) != 2)" || a == "((p2 & 128) != 0)"
-			c.Check(known, "W-sig", "flag-atom/"+a, fn.Pos(), "hash type tested only through the mask 0x1f / bit 0x80", "hash type is tested by an unexpected condition "+a)
+			// a function of the hash type alone (evaluated with the specification's atoms on its values)
+			_, driven, _ := drivenAtoms([]string{a})
+			c.Check(driven[a], "W-sig", "flag-atom/"+a, fn.Pos(), "the hash type is tested through a function of its own value only", "hash type is tested by a condition that is not a function of its value alone: "+a)
 		}
 	}
 	// S-dig: CalcInputSignatureHash = sha256d(preimage chosen by the FORKID bit)
